@@ -14,7 +14,17 @@ import numpy as np
 from ..common import HarnessError, REPO, Report, VERIF, pmap
 
 PID = "C07"
-ACTS = ["draw17", "runother", "runother_seeded", "construct_only", "run_noisy", "options_logging", "run_1d_narrow"]
+ACTS = ["draw17", "runother", "runother_seeded", "construct_only", "run_noisy", "options_logging", "run_1d_narrow", "same_arrays_first", "printoptions"]
+_SHARED = {}
+
+
+def shared_bounds():
+    """Module-level bound arrays of a log-scaled problem, handed to several instances *as the same objects*
+    (a multi-start loop re-using its arrays)."""
+    if not _SHARED:
+        _SHARED.update(lb=np.array([[1e-3, 1e-3]]), ub=np.array([[1e3, 1e3]]), plb=np.array([[1e-1, 1e-1]]), pub=np.array([[1e2, 1e2]]))
+    return _SHARED
+
 
 
 def problems(quick):
@@ -24,6 +34,8 @@ def problems(quick):
             for D in (1, 2):
                 ps.append(dict(kind=kind, x0=x0, D=D, mfe=40 if kind == "det" else 55))
     ps.append(dict(kind="det", x0="absent", D=2, mfe=40, seed=0))   # random_seed = 0 is a seed like any other
+    ps.append(dict(kind="logshared", x0="given", D=2, mfe=40))       # log-scaled box whose bound arrays are shared with an earlier instance
+    ps.append(dict(kind="det", x0="absent", D=7, mfe=45))            # the initial design seed is derived from a printed array (D > print threshold)
     ps.append(dict(kind="heavy", x0="given", D=1, mfe=100))   # noise far above noise_size: GP refits take their high-noise retry branch
     if not quick:
         ps.append(dict(kind="heavy", x0="given", D=1, mfe=150))
@@ -43,7 +55,7 @@ def make_instance(p):
     def f(x):
         xx = np.asarray(x, float)
         log.update(xx.tobytes())
-        v = float(np.sum((xx - 0.3) ** 2))
+        v = float(np.sum((xx - 0.3) ** 2)) if p["kind"] != "logshared" else float(np.sum((np.log10(xx) - 0.3) ** 2))
         if p["kind"] == "noisy":
             v += 0.5 * float(np.random.randn())
         elif p["kind"] == "heavy":
@@ -54,6 +66,9 @@ def make_instance(p):
 
     o = {"display": "off", "random_seed": p.get("seed", 7), "max_fun_evals": p["mfe"], "noise_final_samples": 3}
     kw = dict(lower_bounds=np.full((1, D), -5.0), upper_bounds=np.full((1, D), 5.0), plausible_lower_bounds=np.full((1, D), -2.0), plausible_upper_bounds=np.full((1, D), 2.0))
+    if p["kind"] == "logshared":
+        sb = shared_bounds()
+        kw = dict(lower_bounds=sb["lb"], upper_bounds=sb["ub"], plausible_lower_bounds=sb["plb"], plausible_upper_bounds=sb["pub"])
     if p["x0"] == "given":
         kw["x0"] = np.full((1, D), 1.0)
     if p["kind"] == "cons":
@@ -71,6 +86,12 @@ def activity(a):
         if a == "runother_seeded":
             o["random_seed"] = 99
         BADS(lambda x: float(np.sum(np.asarray(x) ** 2)), x0=np.full((1, 3), 0.5), lower_bounds=np.full((1, 3), -3.0), upper_bounds=np.full((1, 3), 3.0), options=o).optimize()
+    elif a == "same_arrays_first":
+        sb = shared_bounds()
+        BADS(lambda x: float(np.sum(np.log10(np.asarray(x)) ** 2)), x0=np.full((1, 2), 3.0), lower_bounds=sb["lb"], upper_bounds=sb["ub"],
+             plausible_lower_bounds=sb["plb"], plausible_upper_bounds=sb["pub"], options={"display": "off", "max_fun_evals": 12, "random_seed": 5}).optimize()
+    elif a == "printoptions":
+        np.set_printoptions(precision=3, threshold=5, edgeitems=1, linewidth=40)
     elif a == "run_1d_narrow":
         # a 1-D problem in a narrow box with enough evaluations for several search steps (its search populations are
         # thinned differently by gridding / de-duplication / projection than those of the problems under test)
@@ -96,12 +117,21 @@ def activity(a):
 
 
 def run_case(p, slot1, slot2):
+    def act(a):
+        try:
+            activity(a)
+        except Exception:  # noqa  (an activity is only history; whether it succeeds is not the subject)
+            pass
+
     for a in slot1:
-        activity(a)
-    b, log, n = make_instance(p)
-    for a in slot2:
-        activity(a)
-    r = b.optimize()
+        act(a)
+    try:
+        b, log, n = make_instance(p)
+        for a in slot2:
+            act(a)
+        r = b.optimize()
+    except Exception as e:  # noqa  (a run that only fails after a certain history depends on that history)
+        return "EXC:%s:%s" % (type(e).__name__, str(e)[:60]), -1
     h = hashlib.sha256(log.digest())
     h.update(np.asarray(r["x"], float).tobytes())
     h.update(np.float64(r["fval"]).tobytes())
@@ -178,7 +208,7 @@ def run(ctx):
         refs[pkey(p)] = a
     cases = [(p, list(s1), list(s2)) for p in ps for (s1, s2) in hs if not (q and p["kind"] == "heavy" and len(s1) + len(s2) > 1)]
     if q:
-        cases = [c for c in cases if (c[0]["D"] == 1 and c[0]["kind"] != "heavy") or len(c[1]) + len(c[2]) <= 1]
+        cases = [c for c in cases if (c[0]["D"] == 1 and c[0]["kind"] in ("det", "noisy") and c[0]["x0"] == "given") or len(c[1]) + len(c[2]) <= 1]
     outs = pmap(_spawn, [([list(c)], 0) for c in cases])
     acts = 0
     for (p, s1, s2), o in zip(cases, outs):
